@@ -518,7 +518,12 @@ def run(chk):
                     has_term = any(x["t"] == "term" for x in info["leaves"])
                     sus = suspect_ids(info["leaves"], res, with_dual="NOT" in rel["res"][0])
                     if info["op"] == "not":
-                        cls = "absent-field" if diff <= lacking else "free-text" if has_term else "open-or-defective-leaf" if diff <= sus else "plain"
+                        # a deviation that lies only on events where a COMPARISON operand (or its negation) is open / out of
+                        # bounds belongs to that comparison (RC6), also when the composite contains a free-text term as well
+                        cmp_leaves = [x for x in info["leaves"] if x["t"] == "cmp"]
+                        sus_cmp = suspect_ids(cmp_leaves, res, with_dual=True) if cmp_leaves else set()
+                        cls = "absent-field" if diff <= lacking else "open-or-defective-leaf" if has_term and cmp_leaves and diff <= sus_cmp else \
+                            "free-text" if has_term else "open-or-defective-leaf" if diff <= sus else "plain"
                     else:
                         cls = "absent-field" if diff <= lacking else "open-or-defective-leaf" if diff <= sus else \
                             "negated-free-text" if has_term and "NOT" in rel["res"][0] else "plain"
